@@ -517,7 +517,10 @@ def adversarial(rng: random.Random) -> Dict[str, Any]:
     B = s.batches[b]
     n = rng.randint(1, 3)
     kind = rng.choice(['missing-parent', 'later-parent', 'self-parent', 'id-out-of-range', 'dup-parents', 'empty-update', 'unknown-group',
-                       'later-group', 'wrong-user', 'groups-out-of-order', 'dup-job-id', 'abs-parent-in-future-update', 'zero-id'])
+                       'later-group', 'wrong-user', 'groups-out-of-order', 'dup-job-id', 'abs-parent-in-future-update', 'zero-id',
+                       # boundaries of the id checks of _create_jobs, and what they cannot see
+                       'rel-parent-zero', 'abs-parent-zero', 'abs-parent-own-id', 'abs-parent-previous-id', 'id-just-above-range',
+                       'parent-in-uninserted-earlier-update', 'parent-in-uninserted-earlier-update'])
     if rng.random() < 0.15 and B['updates']:
         # another user re-sends the owner's update token / tries to open an update on a batch that is not theirs
         s.emit(f'createUpdate {b} {B["updates"][0]["token"]} 2 0 2', 'adv:foreign-token')
@@ -529,6 +532,10 @@ def adversarial(rng: random.Random) -> Dict[str, Any]:
         s.emit(f'insertGroups {b} {u["id"]} 1 1;0;0', 'insertGroups')
         s.emit(f'commit {b} {u["id"]}', 'commit')
         return {'ops': s.ops, 'kind': 'adversarial', 'adv': kind}
+    orphan_parent = None
+    if kind == 'parent-in-uninserted-earlier-update':
+        u0 = s.open_update(b, rng.randint(1, 2), 0)      # reserved, its bunch never sent (or sent after the child update committed)
+        orphan_parent = u0['start_job']
     u = s.open_update(b, n, 1 if kind in ('later-group', 'groups-out-of-order') else 0)
     sj = u['start_job']
     usr = 2 if kind == 'wrong-user' else 1
@@ -561,6 +568,18 @@ def adversarial(rng: random.Random) -> Dict[str, Any]:
         specs[1] = spec(1)
     elif kind == 'abs-parent-in-future-update':
         specs[0] = spec(1, absp=[sj + n])
+    elif kind == 'rel-parent-zero':
+        specs[-1] = spec(n, relp=[0])
+    elif kind == 'abs-parent-zero':
+        specs[-1] = spec(n, absp=[0])
+    elif kind == 'abs-parent-own-id':
+        specs[-1] = spec(n, absp=[sj + n - 1])
+    elif kind == 'abs-parent-previous-id' and sj + n - 2 >= 1:
+        specs[-1] = spec(n, absp=[sj + n - 2])           # accepted: an earlier id (of this update: the legacy `parent_ids` form)
+    elif kind == 'id-just-above-range':
+        specs[-1] = spec(n + 1)
+    elif kind == 'parent-in-uninserted-earlier-update':
+        specs[0] = spec(1, absp=[orphan_parent])
     if kind == 'groups-out-of-order':
         s.emit(f'insertGroups {b} {u["id"]} 1 2;0;0', 'adv:groups-out-of-order')
         s.emit(f'insertGroups {b} {u["id"]} 1 1;0;0', 'insertGroups')
@@ -570,6 +589,10 @@ def adversarial(rng: random.Random) -> Dict[str, Any]:
     if rng.random() < 0.3:
         s.emit(s.ops[-1], 'dup:insertJobs')
     s.emit(f'commit {b} {u["id"]}', 'commit')
+    if orphan_parent is not None and rng.random() < 0.5:
+        # the earlier update arrives late
+        s.emit(f'insertJobs {b} {u0["id"]} 1 ' + ' '.join(spec(k) for k in range(1, u0['n_jobs'] + 1)), 'insertJobs')
+        s.emit(f'commit {b} {u0["id"]}', 'commit')
     # let the batch run: schedule / complete whatever can run, so that "can the batch finish" is observable
     for j in range(1, B['n_jobs'] + 6):
         a = s.next_att
